@@ -92,10 +92,42 @@ def options_for(pred, ref) -> dict:
     return EVAL_OPTIONS[h % len(EVAL_OPTIONS)]
 
 
+LAYOUTS = ["C", "C", "C", "C", "predF", "refF", "bothF", "predT", "ref-strided"]
+
+
+def layout_for(pred, ref) -> str:
+    """which memory layout the two arrays are handed over in (chosen by their content, so that a replay uses the same): the layout
+    of an array is not part of its value, no result may depend on it"""
+    import zlib
+    if pred.ndim < 2 or min(pred.shape) < 2:
+        return "C"
+    h = zlib.crc32(np.ascontiguousarray(ref).tobytes()) ^ (zlib.crc32(np.ascontiguousarray(pred).tobytes()) >> 3) ^ (7 * pred.ndim)
+    return LAYOUTS[h % len(LAYOUTS)]
+
+
+def with_layout(pred, ref, lay):
+    if lay in ("predF", "bothF"):
+        pred = np.asfortranarray(pred)
+    if lay in ("refF", "bothF"):
+        ref = np.asfortranarray(ref)
+    if lay == "predT":
+        pred = np.ascontiguousarray(np.transpose(pred)).T                  # the same logical array, stored transposed
+    if lay == "ref-strided":
+        big = np.zeros(tuple(2 * x for x in ref.shape), ref.dtype)
+        view = big[tuple(slice(0, None, 2) for _ in ref.shape)]
+        view[...] = ref
+        ref = view
+    return pred, ref
+
+
 def evaluate(ev, pred, ref, **kw):
     """returns {group: (result, intermediate)} or ('err', ExceptionName, message)"""
     import contextlib
     import io
+    if isinstance(pred, np.ndarray) and isinstance(ref, np.ndarray) and pred.flags.c_contiguous and ref.flags.c_contiguous \
+            and pred.shape == ref.shape:
+        # (arrays that already come in a special layout are left as the caller made them)
+        pred, ref = with_layout(pred, ref, layout_for(pred, ref))
     if "log_times" not in kw and "verbose" not in kw and isinstance(pred, np.ndarray) and isinstance(ref, np.ndarray):
         kw = dict(kw, **options_for(pred, ref))
     try:
